@@ -223,6 +223,42 @@ def shard(p):
                 if n < 0:
                     prod = ("bin", "/", ("lit", "1", F(1), R.ZERO_DIMS), prod)
                 cases.append((prod, want))
+        # a quantity that comes out of a sum or a cast (not a literal), times or over a literal whose units cancel some of its units
+        # EXACTLY (same names, no prefixes), and the result cast or added once more: (3 m/s + 2 m/s) * 10 s to m. Whatever a unit
+        # remembers about itself from the sum has to be forgotten when the product changes it (seed C02-i: memoised base dimensions
+        # survive an update that cancels a unit completely)
+        base_words = [e for e in V.entries if e["bare"] and e["prefix"] == 0 and V.scale[e["key"]] == 1 and e["word"] in ("m", "s", "kg", "A", "K", "mol", "cd")]
+        for _ in range(p["n"] // 25 if len(base_words) >= 3 else 0):
+            es = rng.sample(base_words, rng.choice([2, 2, 3]))
+            U = [(e, rng.choice([1, 1, -1, 2, -2])) for e in es]
+            sU, dU = V.factors_si(U)
+            ut = G.text(U, rng)
+            x1, x2, y, z = (F(rng.randint(1, 99)) for _ in range(4))
+            if rng.random() < 0.6:
+                S = ("lit", "(%d %s + %d %s)" % (x1, ut, x2, ut), (x1 + x2) * sU, dU)
+            else:
+                S = ("lit", "(%d %s to %s)" % (x1, ut, ut), x1 * sU, dU)
+            e, pw = rng.choice(U)
+            op = rng.choice("*/")
+            wp = -pw if op == "*" else pw
+            sW, dW = V.factors_si([(e, wp)])
+            W = ("lit", "%d %s" % (y, e["word"] if wp == 1 else "%s^%d" % (e["word"], wp)), y * sW, dW)
+            P = ("bin", op, S, W)
+            val, dims = model(P)
+            rest = [(e2, p2) for e2, p2 in U if e2["key"] != e["key"]]
+            ptext = c06.layout(c06.tokens(P, "min"), rng, "single", units=True)
+            ttext = G.text(rest, rng)
+            sT, _dT = V.factors_si(rest)
+            r_ = rng.random()
+            if r_ < 0.4:
+                full, v2 = "(%s to %s)" % (ptext, ttext), val
+            elif r_ < 0.7:
+                full, v2 = "(%s + %d %s)" % (ptext, z, ttext), val + z * sT
+            else:
+                full, v2 = "(%d %s - %s)" % (z, ttext, ptext), z * sT - val
+            t = ("bin", "*", ("lit", full, v2, dims), ("lit", "1", F(1), R.ZERO_DIMS))
+            cases.append((t, (v2, dims)))
+            acc.count("sum_or_cast_times_cancelling_literal_then_cast_or_sum")
         reqs, meta = [], []
         for t, want in cases:
             style = rng.choice(["min", "min", "full"])
